@@ -6,7 +6,7 @@
 # demonstration can be run next (then: git -C /var/tmp/confirm-wt checkout -- . && git clean -fd).
 set -u
 PATCH=$(readlink -f "$1")
-WT=/var/tmp/confirm-wt
+WT=${CONFIRM_WT:-/var/tmp/confirm-wt}
 if [ ! -d "$WT" ]; then git -C /repo worktree add --detach "$WT" HEAD >/dev/null || exit 3; fi
 cd "$WT" || exit 3
 git checkout -q --detach "$(git -C /repo rev-parse HEAD)" 2>/dev/null
